@@ -679,8 +679,28 @@ func runHamtInput(rep *Report, in HamtInput, cf *CaseFile) {
 			for _, e := range in.Entries {
 				distinct[e.Name] = true
 			}
-			if len(distinct) == len(in.Entries) {
-				fail("C02", "build-error", "building a directory of distinctly named entries failed", "ok", o.Class)
+			// ... for names the hash can tell apart: two names equal in every full slice of the 64 bits cannot be
+			// held by a HAMT of that fanout at all (the reference gives up on them as well)
+			fanB := in.Fanout
+			if in.Mode == "auto" {
+				fanB = 256
+			}
+			lgB := 0
+			for 1<<uint(lgB) < fanB {
+				lgB++
+			}
+			usable := uint(64 / lgB * lgB)
+			seenSlice := map[uint64]bool{}
+			separable := true
+			for n := range distinct {
+				k := binary.BigEndian.Uint64(mhash(n)) >> (64 - usable)
+				if seenSlice[k] {
+					separable = false
+				}
+				seenSlice[k] = true
+			}
+			if len(distinct) == len(in.Entries) && separable {
+				fail("C02", "build-error", "building a directory of distinctly named entries failed", "ok", fmt.Sprint(o.Class, ": ", err))
 				if in.Mode == "sharded" && len(in.Entries) > 0 {
 					// C08: the reference HAMT holds the same entries without complaint
 					refOK := guard(func() error {
@@ -715,20 +735,31 @@ func runHamtInput(rep *Report, in HamtInput, cf *CaseFile) {
 			fan := shardFanout(dag)
 			rst := NewStore()
 			ds := memDag{rst}
-			sh, err := boxohamt.NewShard(ds, fan)
-			must(err)
-			sh.SetCidBuilder(cid.V1Builder{Codec: cid.DagProtobuf, MhType: multihash.SHA2_256})
-			for _, e := range in.Entries {
-				must(sh.SetLink(context.Background(), e.Name, &format.Link{Name: e.Name, Size: uint64(e.Tsize), Cid: entryCid(e)}))
-			}
-			nd, err := sh.Node()
-			must(err)
-			rsize, _ := nd.Size()
-			if !nd.Cid().Equals(root) {
-				fail("C08", "cid", "root link differs from the reference HAMT holding the same entries", nd.Cid().String(), root.String())
-			}
-			if rsize != size {
-				fail("C08", "size", "cumulative size differs from the reference HAMT's", rsize, size)
+			var nd format.Node
+			rerr := func() error {
+				sh, err := boxohamt.NewShard(ds, fan)
+				if err != nil {
+					return err
+				}
+				sh.SetCidBuilder(cid.V1Builder{Codec: cid.DagProtobuf, MhType: multihash.SHA2_256})
+				for _, e := range in.Entries {
+					if err := sh.SetLink(context.Background(), e.Name, &format.Link{Name: e.Name, Size: uint64(e.Tsize), Cid: entryCid(e)}); err != nil {
+						return err
+					}
+				}
+				nd, err = sh.Node()
+				return err
+			}()
+			if rerr != nil {
+				fail("C08", "reference-fails", "the sharded builder returned a root for an entry set the reference HAMT cannot hold", rerr.Error(), root.String())
+			} else {
+				rsize, _ := nd.Size()
+				if !nd.Cid().Equals(root) {
+					fail("C08", "cid", "root link differs from the reference HAMT holding the same entries", nd.Cid().String(), root.String())
+				}
+				if rsize != size {
+					fail("C08", "size", "cumulative size differs from the reference HAMT's", rsize, size)
+				}
 			}
 		}
 		// C11: returned size from the tree walk
@@ -1065,6 +1096,38 @@ func scnHamt(rep *Report, rng *Rng, tier string, outdir string) {
 		ns := append(append([]string{}, grp...), names(5)...)
 		for _, f := range []int{8, 32, 256, 1024} {
 			add(HamtInput{Mode: "sharded", Fanout: f, Entries: mkEntries(ns), Probes: probesFor(ns)})
+		}
+	}
+	// names placed by their digest (murmur3 inverted over one 16-byte block): entries that part only at the last
+	// hash level the fanout leaves room for, one level earlier, only in the bits beyond the last full slice (no
+	// room: too deep for builder and reference alike), and two names with all 64 bits equal
+	for fi, f := range fanouts {
+		lg := 0
+		for 1<<uint(lg) < f {
+			lg++
+		}
+		levels := 64 / lg
+		d := rng.Next()
+		nm := func(digest uint64, k int) string {
+			return string(nameWithDigest(digest, uint64(1000*fi+k)*0x9e3779b97f4a7c15+1))
+		}
+		n0 := nm(d, 0)
+		nLast := nm(d^(1<<uint(64-levels*lg)), 1)     // parts from n0 in the lowest bit of the last full slice
+		nPrev := nm(d^(1<<uint(64-(levels-1)*lg)), 2) // one level earlier
+		nTwin := nm(d, 3)                             // the same 64 bits
+		plain := names(3)
+		sets := [][]string{{n0, nLast}, {nLast, n0, nPrev}, append([]string{n0, nLast, nPrev}, plain...), {n0, nTwin}, append([]string{nTwin, n0}, plain...)}
+		if 64-levels*lg > 0 {
+			nBeyond := nm(d^1, 4) // parts only where no full slice is left
+			sets = append(sets, []string{n0, nBeyond}, []string{nBeyond, nLast, n0})
+		}
+		for _, ns := range sets {
+			add(HamtInput{Mode: "sharded", Fanout: f, Entries: mkEntries(ns), Probes: []string{nm(d, 5), nm(d^(1<<uint(64-levels*lg)), 6), "zz"}})
+			rev := append([]string{}, ns...)
+			for i, j := 0, len(rev)-1; i < j; i, j = i+1, j-1 {
+				rev[i], rev[j] = rev[j], rev[i]
+			}
+			add(HamtInput{Mode: "sharded", Fanout: f, Entries: mkEntries(rev), Probes: []string{"zz"}})
 		}
 	}
 	// keys that are a member name with (part of) a bucket prefix in front, or a proper suffix of a member name:
